@@ -88,3 +88,4 @@ MANIFEST = {
     "technique": "runtime monitoring: reference-model oracle (float64 objective from recorded instance + actions) vs observed reward",
     "design_ref": "DESIGN.md section 4 / C03",
 }
+MANIFEST["text"] += ' Round 7: get_reward on the reset state + actions must equal the final-state reward wherever the reward is a function of the actions.'
